@@ -1,0 +1,27 @@
+// Copyright 2024 The Mellium Contributors.
+// Use of this source code is governed by the BSD 2-clause
+// license that can be found in the LICENSE file.
+
+//go:build verif
+
+package xmpp
+
+import (
+	"mellium.im/xmlstream"
+)
+
+// VerifTapOutput lets the verification harness observe what the session's
+// stanza encoder hands to the underlying XML encoder: wrap receives the writer
+// currently underneath the stanza encoder and returns the writer to install in
+// its place. It reports false if the session's output is not (yet) a stanza
+// encoder. It must be called while no other goroutine uses the session.
+func (s *Session) VerifTapOutput(wrap func(inner xmlstream.TokenWriteFlusher) xmlstream.TokenWriteFlusher) bool {
+	s.out.Lock()
+	defer s.out.Unlock()
+	se, ok := s.out.e.(*stanzaEncoder)
+	if !ok {
+		return false
+	}
+	se.TokenWriteFlusher = wrap(se.TokenWriteFlusher)
+	return true
+}
